@@ -23,7 +23,7 @@ theorem prefix_exists {fs : T} (hw : WF fs) (p : Path) : ∀ (n : Nat) (r : Path
     intro r e hl hg
     have hne : r ≠ [] := by intro h; subst h; simp at hl
     have hr := dropLast_append_getLast r hne
-    obtain ⟨pe', hpe', hd'⟩ := hw (p ++ r) e hg (by simp [hne])
+    obtain ⟨pe', hpe', hd'⟩ := hw.1 (p ++ r) e hg (by simp [hne])
     rw [List.dropLast_append_of_ne_nil hne] at hpe'
     obtain ⟨pe, hpe, hd⟩ := ih r.dropLast pe' (by simp [List.length_dropLast, hl]) hpe'
     refine ⟨pe, hpe, fun _ => ?_⟩
@@ -155,9 +155,55 @@ theorem get_moveTree_moved (fs : T) (hab : ¬ a <+: b) (hba : ¬ b <+: a) (r : P
         simp only [h1, h2]
         exact ih
 
+/-- the subtree move stores no path twice: moved paths land below `b`, where nothing was left -/
+theorem nodup_moveTree {fs : T} (h : NoDupKeys fs) : NoDupKeys (moveTree fs a b) := by
+  unfold NoDupKeys at h ⊢
+  rw [moveTree_ents, List.map_map]
+  have hsub : ((fs.ents.filter fun y => !(isPrefix b y.1)).map (·.1)).Nodup := h.sublist ((List.filter_sublist).map _)
+  have : (fs.ents.filter fun y => !(isPrefix b y.1)).map ((·.1) ∘ mv a b) =
+      ((fs.ents.filter fun y => !(isPrefix b y.1)).map (·.1)).map (fun q => if isPrefix a q then b ++ q.drop a.length else q) := by
+    rw [List.map_map]
+    apply List.map_congr_left
+    intro y _
+    simp only [Function.comp, mv]
+    split <;> rfl
+  rw [this]
+  rw [List.nodup_iff_pairwise_ne, List.pairwise_map]
+  refine List.Pairwise.imp_of_mem ?_ (List.nodup_iff_pairwise_ne.mp hsub)
+  intro x y hx hy hne hxy
+  apply hne
+  have nb : ∀ z, z ∈ (fs.ents.filter fun y => !(isPrefix b y.1)).map (·.1) → ¬ b <+: z := by
+    intro z hz hbz
+    obtain ⟨w, hw, hwz⟩ := List.mem_map.mp hz
+    have := (List.mem_filter.mp hw).2
+    rw [hwz] at this
+    have hb := (isPrefix_iff b z).mpr hbz
+    simp [hb] at this
+  by_cases hax : isPrefix a x = true <;> by_cases hay : isPrefix a y = true
+  · simp only [hax, hay, if_true] at hxy
+    have hd := List.append_cancel_left hxy
+    obtain ⟨rx, hrx⟩ := (isPrefix_iff a x).mp hax
+    obtain ⟨ry, hry⟩ := (isPrefix_iff a y).mp hay
+    rw [← hrx, ← hry] at hd ⊢
+    simp only [List.drop_left] at hd
+    rw [hd]
+  · simp only [hax, hay, if_true] at hxy
+    exfalso; apply nb y hy
+    simp only [Bool.not_eq_true] at hay
+    simp only [hay, Bool.false_eq_true, if_false] at hxy
+    rw [← hxy]; exact List.prefix_append b _
+  · simp only [Bool.not_eq_true] at hax
+    simp only [hax, hay, if_true, Bool.false_eq_true, if_false] at hxy
+    exfalso; apply nb x hx
+    rw [hxy]; exact List.prefix_append b _
+  · simp only [Bool.not_eq_true] at hax hay
+    simp only [hax, hay, Bool.false_eq_true, if_false] at hxy
+    exact hxy
+
 /-- the subtree move keeps the model well-formed -/
 theorem wf_moveTree {fs : T} (hw : WF fs) (hab : ¬ a <+: b) (hba : ¬ b <+: a) (hbne : b ≠ [])
     {pb : Entry} (hpb : get fs b.dropLast = some pb) (hpbd : pb.kind = .dir) : WF (moveTree fs a b) := by
+  refine ⟨?_, nodup_moveTree a b hw.2⟩
   intro q e hq hqne
   by_cases hbq : b <+: q
   · obtain ⟨r, hr⟩ := hbq
@@ -175,7 +221,7 @@ theorem wf_moveTree {fs : T} (hw : WF fs) (hab : ¬ a <+: b) (hba : ¬ b <+: a) 
         omega
       rw [get_moveTree_other a b fs _ h1 h2]
       exact ⟨pb, hpb, hpbd⟩
-    · obtain ⟨pe, hpe, hd⟩ := hw (a ++ r) e hq (by simp [hr0])
+    · obtain ⟨pe, hpe, hd⟩ := hw.1 (a ++ r) e hq (by simp [hr0])
       rw [List.dropLast_append_of_ne_nil hr0] at hpe
       rw [List.dropLast_append_of_ne_nil hr0, get_moveTree_moved a b fs hab hba]
       exact ⟨pe, hpe, hd⟩
@@ -183,7 +229,7 @@ theorem wf_moveTree {fs : T} (hw : WF fs) (hab : ¬ a <+: b) (hba : ¬ b <+: a) 
     · rw [get_moveTree_under_a a b fs q haq hbq] at hq
       simp at hq
     · rw [get_moveTree_other a b fs q haq hbq] at hq
-      obtain ⟨pe, hpe, hd⟩ := hw q e hq hqne
+      obtain ⟨pe, hpe, hd⟩ := hw.1 q e hq hqne
       have h1 : ¬ a <+: q.dropLast := fun h => haq (h.trans (List.dropLast_prefix q))
       have h2 : ¬ b <+: q.dropLast := fun h => hbq (h.trans (List.dropLast_prefix q))
       rw [get_moveTree_other a b fs _ h1 h2]
@@ -281,7 +327,7 @@ theorem rename_frame' {fs fs1 : T} {a b : Path} (h : rename fs a b = .ok fs1) (h
                   · rename_i hc3
                     simp only [Except.ok.injEq] at h
                     subst h
-                    obtain ⟨pb, hgpb, hpbd⟩ := hw b eb hgb hbne
+                    obtain ⟨pb, hgpb, hpbd⟩ := hw.1 b eb hgb hbne
                     have hab : ¬ a <+: b := by
                       intro hp
                       have hp' := prefix_dropLast hp hneab
